@@ -16,13 +16,13 @@ func init() {
 		Level:       "other",
 		Explanation: "Decides the data flow that makes 'dealt in' equal 'eligible': (R1) at open the dealt-in flag of every player (loop over the full list) is copied from the seat manager's eligibility answer for that same player, only after positions were initialised/rotated, and every failure returns the old table; (R2) the hand list is built only from flagged players; (R3) eligibility ≡ seated-in ∧ not waiting ∧ has chips; (R4) every bankroll writer outside construction refreshes the seat manager's has-chips flag for that player (settlement: through the continue step's loop over all players with Bankroll > 0); (R5) both assigners set the waiting flag of a new seat from 'positions initialised ? between dealer and BB : false', and the predicate is false for short deck; (R6) the rotation re-evaluates the waiting flag only for non-eligible seats; (R7) fewer than two eligible ⇒ the rotation refuses and the open step reports the open-failed error; (R8) the seated-in flag is set together with the seat manager's. NOT decided: 'never misses more than three hands', eligibility persistence over histories.",
 		Rules: map[string]string{
-			"R1": "dealt-in flag ← SeatManager.IsPlayerActive(same player) for every player, after init/rotate; failures return the old table",
+			"R1": "dealt-in flag ← SeatManager.IsPlayerActive(same player) for every player, after init/rotate; failures return the old table; success exits of the open step return the clone after a successful rotation/initialisation; initialise only when never initialised, rotate otherwise, one site each; the dealt-in flag is written only by the open and continue steps from IsPlayerActive(same player)",
 			"R2": "hand list built only from players whose dealt-in flag is set",
 			"R3": "eligibility definition",
 			"R4": "has-chips refresh pairing for every bankroll writer",
-			"R5": "waiting flag on seating in both assigners; predicate false for short deck / uninitialised",
-			"R6": "rotation rewrites the waiting flag only for occupied, non-eligible seats",
-			"R7": "refusal propagates out of open as the open-failed error",
+			"R5": "waiting flag on seating in both assigners; predicate false for short deck / uninitialised; the waiting arc is exact: short deck → false, wrapping arc → true iff some i in (dealer, bb+N) has i%N == target, else target < bb ∧ target > dealer; asked as arc(dealer seat, bb seat, own seat)",
+			"R6": "rotation rewrites the waiting flag only for occupied, non-eligible seats; re-evaluated with arc(a value stored as the new dealer seat, the value stored as the new BB seat, the seat itself)",
+			"R7": "refusal propagates out of open as the open-failed error; no known-nil error returned (inverted test)",
 			"R8": "seated-in pairing (as C03.R7)",
 			"R9": "seat-manager side of eligibility: UpdatePlayerHasChips writes the given flag to HasChips of the seat found for the id; IsPlayerActive answers Active() of that seat and (false, err) for an unknown id; InitPositions marks initialised only after a successful initialisation and never initialises twice",
 		},
